@@ -42,6 +42,16 @@ func c16Tree(cs int64) *Tree {
 		pl = append(pl, Obj{"patch": "apiVersion: apps/v1\nkind: Deployment\nmetadata:\n  name: " + g.Name + "\nspec:\n  template:\n    spec:\n      containers:\n      - name: main\n        env:\n        - name: A\n          value: b\n"})
 		L.Kust["patches"] = pl
 	}
+	// generators fed from env files (line scanning of each build's own input)
+	if r.Intn(2) == 0 {
+		var sb strings.Builder
+		for i := 0; i < 20+r.Intn(40); i++ {
+			sb.WriteString(fmt.Sprintf("KEY_%d_%d=%s\n", cs%1000, i, strings.Repeat(string(rune('a'+int(cs%26))), 10+r.Intn(60))))
+		}
+		L.Files["c16.env"] = sb.String()
+		gs, _ := L.Kust["configMapGenerator"].([]interface{})
+		L.Kust["configMapGenerator"] = append(gs, Obj{"name": "c16-env-" + t.newID(), "envs": []interface{}{"c16.env"}})
+	}
 	// crds: name references derived from a CRD are merged into (what must be a private copy of) the default
 	// transformer configuration; a custom resource then refers to a ConfigMap of its layer
 	if r.Intn(2) == 0 {
